@@ -63,6 +63,14 @@ def _order_free(f, n):
     return False
 
 
+def _exact_marker_predicate(prog):
+    from . import c10
+
+    e = prog.fn("rewriter::extract_source_map")
+    pred = c10.comment_predicate(prog, e)
+    return bool(pred) and all(ch == ("trim",) and str(cst).endswith("SOURCE_MAP_URL") for ch, cst, base in pred)
+
+
 def _coll_base(ty):
     t = core_type(ty)
     for w in ("std::sync::Arc<", "std::rc::Rc<", "triomphe::Arc<"):
@@ -275,6 +283,8 @@ def rule_nondet(check, reach):
         fobj = [f for f in prog.user_fns if T.short(f) == key[0]]
         if not why and fobj and all(_order_free(fobj[0], n) for n in nodes):
             check.ok(R, k, hir.loc(nodes[0]), "iteration consumed by an order-insensitive reduction (any/all/count/min/max over element-wise adapters, closures without writes)")
+        elif why and key == ("rewriter::extract_source_map", "iter", "DashMap") and not _exact_marker_predicate(prog):
+            check.bad(R, k, hir.loc(nodes[0]), "the scan of the comment map was reviewed for comments that *are* a sourceMappingURL comment (trimmed text starts with the marker, at most one per file); with the current test several comments of one file can match and the hash order of the map decides which one wins")
         elif why:
             check.ok(R, k, hir.loc(nodes[0]), "reviewed: %s" % why)
         else:
